@@ -7,5 +7,7 @@ if [ -n "$(git status --porcelain)" ]; then echo "/repo not clean"; exit 2; fi
 git apply "$PATCH" || { echo "patch does not apply"; exit 2; }
 cd /verif && ./check "$PID" "$TIER"; rc=$?
 cd /repo && git checkout -- . && git clean -fdq
+# the evidence file was just rewritten by a run on a SEEDED tree: put the committed one back (evidence is only ever committed from clean-tree runs)
+git -C /verif checkout -- "evidence/$PID.json" 2>/dev/null
 echo "check exit=$rc"
 exit 0
